@@ -30,7 +30,8 @@ def toyOps : FOps Int :=
   { add := (· + ·), sub := (· - ·), mul := (· * ·), div := fun a b => Int.tdiv a b,
     lt := fun a b => decide (a < b), le := fun a b => decide (a ≤ b), gt := fun a b => decide (a > b),
     ge := fun a b => decide (a ≥ b), eq := fun a b => decide (a = b), ne := fun a b => decide (a ≠ b),
-    ofInt := id, toI64 := id, abs := fun a => a.natAbs, sqrt := id, posInf := 1, negInf := -1 }
+    ofInt := id, toI64 := id, abs := fun a => a.natAbs, min := fun a b => if a ≤ b then a else b,
+    max := fun a b => if a ≥ b then a else b, sqrt := id, posInf := 1, negInf := -1 }
 
 def isDynLeaf : Leaf → Bool
   | .ref _ | .count => true
